@@ -248,22 +248,25 @@ func (l *BlockchainRpcTxWatcher) AddWaitForCsvTx(swapId, txId string, vout uint3
 	if err != nil {
 		log.Infof("[TxWatcher] checkTxAboveCsvHeight returned: %s", err.Error())
 	}
-	if above {
-		err = l.csvPassedCallback(swapId)
-		if err == nil {
-			log.Infof("Swap %s already past CSV limit", swapId)
-			return
-		}
-		log.Infof("csv passed callback error: %v", err)
-	}
-
 	l.Lock()
-	defer l.Unlock()
 	l.csvtxWatchList[swapId] = &SwapTxInfo{
 		TxId:                txId,
 		TxVout:              vout,
 		Csv:                 csv,
 		StartingBlockHeight: startingBlockheight,
+	}
+	l.Unlock()
+
+	if above {
+		// We are called from an action of the swap's state machine, which holds
+		// the swap's lock, and the callback sends an event to that same machine:
+		// never call back synchronously from here. Let a scan report it at once.
+		log.Infof("Swap %s already past CSV limit", swapId)
+		go func() {
+			if err := l.HandleCsvTx(0); err != nil {
+				log.Infof("csv scan error: %v", err)
+			}
+		}()
 	}
 }
 
